@@ -2,7 +2,8 @@
 get_dataarray_resolution (NumPy backend) on a list of jobs and prints one encoded case per job.
 
 stdin: {"jobs": [...]}.  job = {kind, H, W, vals (rows; numbers or "nan"), dtype,
-        meta {rk, rx [n,d], ry [n,d], xs [ints], ys [ints], cd}, az, alt, chunks ([rows, cols] -> Dask), ...}
+        meta {rk, rx [n,d], ry [n,d], xs [ints], ys [ints], cd}, az, alt, chunks ([rows, cols] -> Dask),
+        layout C|F|T|S|R (memory layout), dims (dimension names), off (integer added to every elevation), ...}
 
 kinds  F  formula case -> all four outputs, bridged to integers (see spec/Stencil_Judge.tla)
        G  general raster (floats) -> outputs as integers + NaN mask
@@ -45,18 +46,35 @@ def num(n, d):
     return int(n // d) if d == 1 else n / d
 
 
+def relayout(a, layout):
+    """the same values in another memory layout: C, F(ortran), T(ransposed view), S(trided view), R(eversed view)"""
+    if layout == "F":
+        return np.asfortranarray(a)
+    if layout == "T":
+        return np.ascontiguousarray(a.T).T
+    if layout == "S":
+        big = np.zeros((2 * a.shape[0] + 1, 3 * a.shape[1] + 2), dtype=a.dtype)
+        big[1::2, 2::3] = a
+        return big[1::2, 2::3]
+    if layout == "R":
+        return np.ascontiguousarray(a[::-1, ::-1])[::-1, ::-1]
+    return a
+
+
 def build(j, vals=None):
     H, W = j["H"], j["W"]
     rows = j["vals"] if vals is None else vals
     a = np.array([[np.nan if v == "nan" else float(v) for v in row] for row in rows], dtype=np.float64)
+    a = a + j.get("off", 0)                    # elevations near the top of the raster dtype (exact in float64)
     dt = j.get("dtype", "float64")
-    a = a.astype(dt)
+    a = relayout(a.astype(dt), j.get("layout", "C"))
     m = j.get("meta") or {"rk": "none", "rx": [0, 1], "ry": [0, 1], "xs": [], "ys": [], "cd": 1}
+    dims = j.get("dims") or ["y", "x"]
     coords = {}
     if m["xs"]:
-        coords["x"] = np.array(m["xs"], dtype=np.float64) / m["cd"]
+        coords[dims[1]] = np.array(m["xs"], dtype=np.float64) / m["cd"]
     if m["ys"]:
-        coords["y"] = np.array(m["ys"], dtype=np.float64) / m["cd"]
+        coords[dims[0]] = np.array(m["ys"], dtype=np.float64) / m["cd"]
     rx, ry = num(*m["rx"]), num(*m["ry"])
     rk = m["rk"]
     attrs = {}
@@ -83,7 +101,7 @@ def build(j, vals=None):
     if j.get("chunks"):          # Dask backend: the same raster wrapped as a dask array with the given chunking
         import dask.array as da
         a = da.from_array(a, chunks=(tuple(j["chunks"][0]), tuple(j["chunks"][1])))
-    return xr.DataArray(a, dims=["y", "x"], coords=coords, attrs=attrs, name="elev")
+    return xr.DataArray(a, dims=dims, coords=coords, attrs=attrs, name="elev")
 
 
 def run4(r, j):
@@ -134,7 +152,7 @@ def case_F(j):
     o = run4(r, j)
     m = j.get("meta") or {"rk": "none", "rx": [0, 1], "ry": [0, 1], "xs": [], "ys": [], "cd": 1}
     c = {"kind": "F", "H": H, "W": W,
-         "g": [[NAN if v == "nan" else int(v) for v in row] for row in j["vals"]],
+         "g": [[NAN if v == "nan" else int(v) + j.get("off", 0) for v in row] for row in j["vals"]],
          "rk": m["rk"], "rx": m["rx"], "ry": m["ry"], "xs": m["xs"], "ys": m["ys"], "cd": m["cd"],
          "sk": SK, "ck": KC,
          "shape_ok": int(all(o[f].shape == (H, W) for f in FNS)), "lazy_ok": int(_lazy[0])}
